@@ -11,6 +11,7 @@ import Driver.Util
 
     begin L K N name_0 .. name_{N-1}  -> ok <keep_domain> <meta>
     feed i s HEX | eof i s | drain i s | flush i   -> <ncalls> <last ret> <th->rc> | S:HEX ...
+    run i s HEX ...  (whole stream = `runStream`)   -> run <th->rc|-> | S:HEX ...
     xrc HEX                                         -> <ret> <string left>
 
     spec lines:  rec L K i N name_0 .. name_{N-1} S K' em_1 .. em_K'
@@ -88,6 +89,15 @@ def step (ops : BufOps β) (mk : Option β) (sizeMeta : Nat) (split : Bool)
             else if op = "eof" then
               let (r, strm', rc', ems) := handle ops cs.cfg host.name sno readRc { strm with weof := true } host.rc
               (put strm' rc', answer 1 r rc' ems)
+            else if op = "run" then
+              -- a whole stream at once: `runStream`, the function the theorems of Props/C05, C06 are about
+              match more.mapM Hex.decode with
+              | some chunks =>
+                let r := runStream ops cs.cfg host.name t0 sno readRc strm.buf chunks
+                let strm' : Stream β := { buf := r.buf, pipe := [], weof := true, closed := true }
+                (put strm' (if isErr then host.rc else r.rc),
+                 s!"run {if isErr then "-" else toString r.rc} |" ++ emsText r.ems)
+              | none => (st, "bad-op")
             else if op = "drain" then
               if !strm.weof then (st, "bad-op not-eof")
               else
